@@ -42,15 +42,28 @@ RULE = ('1-6 orders of 18 placement kinds (inside, straddling, outside before/af
         'another horizon, new Portfolio object from the same assets in another order, costs_only set-up of one book alone, nothing}, the grid object reused or built anew; '
         'every stage is judged per book: rows of the special table = orders with a step in the horizon, fractions in [0,1] / {0,1}, dispatch column = sum reported fraction x capacity x '
         'step length, cash flow = - sum reported fraction x capacity x price x discounted covered duration, optimum = independent LP with one execution variable per order of every book; '
-        'each book\'s own problem of each stage is also compared with the model\'s builder')
+        'each book\'s own problem of each stage is also compared with the model\'s builder. '
+        'Stream `forms` (comp/obforms.py, 320 cases quick): the cases of the first stream (55% DataFrame, mostly 2-6 orders, also a single order; 60% in a portfolio) with the order list '
+        'in a CONTAINER form: DataFrame with RangeIndex / labels starting again (pd.concat of 2-3 frames without ignore_index) / one label for all rows / repeated integers / integers not from 0, '
+        'with holes, not ascending / strings unique or repeated / non-integer numbers / DatetimeIndex unique, repeated, zone-aware, the start column as index / MultiIndex unique or repeated / '
+        'a larger frame filtered with a boolean mask / a frame re-sorted with sort_values; further columns (strings, numbers, booleans) and the columns in another order; dict whose entries are '
+        'pandas Series (default index, string / date labels, named; a small share with numeric labels other than 0..n-1), pandas Index / DatetimeIndex, pandas extension arrays, numpy datetime64 '
+        'arrays, tuples, per column or all four over one index, with further keys and the keys in another order.  The orders are the rows BY POSITION; judged by oracles order_count (execution '
+        'variables = orders given, bounds [0,1]), order_cost / order_delivery on the book\'s own problem (cost and covered steps of variable i = those of the i-th order given, computed by the '
+        'harness from the plain columns), order_container (a container must not raise when the plain form of the same orders is set up) and by all portfolio oracles of the first stream '
+        '(independent per-order LP, tables, inert orders, wrapper) built through the same container')
 ASSUMPTIONS = ['independent reference LP solved with scipy linprog (full execution: enumeration of 0/1 patterns, one LP each)', 'tolerance 1e-9 where the implementation computes with non-dyadic numbers',
                'stream `books`: step lengths, discount factors and covers of the reference are computed from the description of the stage\'s grid (date_range of start/end/frequency in the zone, '
                'seconds per main time unit), not read from grid or asset objects; parameters of an existing order book are changed by assigning its attributes orders / wacc / full_exec '
-               '(the set-up reads them at every call); at most 6 orders in full-execution books per case (pattern enumeration)']
+               '(the set-up reads them at every call); at most 6 orders in full-execution books per case (pattern enumeration)',
+               'stream `forms`: the orders of a DataFrame or of array-like dict entries are its rows / entries by position (row labels, column order and further columns carry no meaning); '
+               'the container is built by the pandas operation it is named after (pd.concat, boolean mask, sort_values, set_index), the recipe is independent of the number of orders']
 EXPLANATION = ('theorems about the model of the OrderBook builder and the order read-out; correspondence; oracles on the real code incl. an independent per-order formulation and the inertness metamorphic test; '
                'the model and the oracles take the exact rational values of the orders, whatever the numeric type and container in which the implementation receives them; '
                'stream `books`: the statement of C20 evaluated per order book of a portfolio with several books, and again after every change of the same objects '
-               '(a set-up must depend on the present orders, wacc, full_exec and grid only, never on an earlier set-up), against the independent per-order formulation of the whole portfolio')
+               '(a set-up must depend on the present orders, wacc, full_exec and grid only, never on an earlier set-up), against the independent per-order formulation of the whole portfolio; '
+               'stream `forms`: the statement of C20 (one execution variable per order, optimum = per-order formulation, reported fractions reproduce dispatch and cash) must hold for every '
+               'container in which the same list of orders can be handed over: the number of variables is counted against the number of orders given and the reference is computed from the plain columns')
 
 
 def scenarios(seed, tier):
@@ -62,9 +75,13 @@ def scenarios(seed, tier):
     rnd2 = random.Random(seed * 7919 + 2020)
     for i in range(240 if tier == 'quick' else 1440):
         yield 'books%d' % i, OBS.gen_case(random.Random(rnd2.getrandbits(48)))
+    # container forms of the order list (comp/obforms.py)
+    rnd3 = random.Random(seed * 7919 + 202020)
+    for i in range(320 if tier == 'quick' else 1920):
+        yield 'forms%d' % i, OB.gen_case_forms(random.Random(rnd3.getrandbits(48)))
 
 
-def run_case(case, drv):
+def run_case(case, drv):   # stream `forms` runs through OB.run_case (case['container'] shapes the order list)
     if case.get('stream') == 'books':
         return OBS.run_case(case, drv)
     return OB.run_case(case, drv)
